@@ -396,7 +396,7 @@ def rtype_ret(t, right=True):
 
 
 def rfuncs(funcs, extern_funcs=(), public=False):
-    lines = []
+    lines, deferred = [], []
     for fd in funcs:
         ps = fd["params"]
         kind = ("öffentliche " if public else "") + ("generische " if fd.get("generic") else "")
@@ -409,12 +409,16 @@ def rfuncs(funcs, extern_funcs=(), public=False):
             names = ", ".join(p["n"] for p in ps[:-1]) + " und " + ps[-1]["n"]
             types = ", ".join(rparamtype(p) for p in ps[:-1]) + " und " + rparamtype(ps[-1])
             head = "Die %sFunktion %s mit den Parametern %s vom Typ %s, gibt %s zurück, %smacht:" % (kind, fd["n"], names, types, rtype_ret(fd["ret"], fd.get("retart", True)), ext)
-        lines.append(head)
-        lines += rstmts(fd["body"], 1)
+        if fd.get("forward"):      # declared now, defined after all declarations ("Die Funktion f macht:")
+            lines.append(head[:-len("macht:")] + "wird später definiert")
+            deferred += ["Die Funktion %s macht:" % fd["n"]] + rstmts(fd["body"], 1) + [""]
+        else:
+            lines.append(head)
+            lines += rstmts(fd["body"], 1)
         lines.append("Und kann so benutzt werden:")
         lines.append('\t"%s"' % " ".join([fd["n"]] + ["<%s>" % p["n"] for p in ps]))
         lines.append("")
-    return lines
+    return lines + deferred
 
 
 def rstructs(structs, public=False):
@@ -465,6 +469,7 @@ def render(P, extern_funcs=()):
     n = P.get("nearly", 0)
     lines += rstmts(P["main"][:n], 0)
     lines.append("")
+    deferred = []
     for fd in P["funcs"]:
         ps = fd["params"]
         if not ps:
@@ -475,12 +480,17 @@ def render(P, extern_funcs=()):
             names = ", ".join(p["n"] for p in ps[:-1]) + " und " + ps[-1]["n"]
             types = ", ".join(rparamtype(p) for p in ps[:-1]) + " und " + rparamtype(ps[-1])
             head = "Die %sFunktion %s mit den Parametern %s vom Typ %s, gibt %s zurück, macht:" % ("generische " if fd.get("generic") else "", fd["n"], names, types, rtype_ret(fd["ret"]))
-        lines.append(head)
-        lines += rstmts(fd["body"], 1)
+        if fd.get("forward"):      # the definition follows at the very end of the program, after its uses
+            lines.append(head[:-len("macht:")] + "wird später definiert")
+            deferred += ["Die Funktion %s macht:" % fd["n"]] + rstmts(fd["body"], 1) + [""]
+        else:
+            lines.append(head)
+            lines += rstmts(fd["body"], 1)
         lines.append("Und kann so benutzt werden:")
         lines.append('\t"%s"' % " ".join([fd["n"]] + ["<%s>" % p["n"] for p in ps]))
         lines.append("")
     lines += rstmts(P["main"][n:], 0)
+    lines += deferred
     return "\n".join(lines) + "\n"
 
 
